@@ -2,7 +2,7 @@ from .core import BASE_TRUST
 
 META = {
     "category": "proof",
-    "text": "Lean 4 theorems over a session machine (Model/Session.lean: disk, view cache with for-update marks, created/updated sets, temporary tables with restore points, commits by other processes): abort_restores - from the most recent commit point, after ANY statements of the transaction, an ending by error / EXIT / interrupt / ROLLBACK leaves every table file exactly as at that commit point, created files absent, temporary tables at their restore point; normal_end_publishes - COMMIT / normal end writes exactly the view the transaction last saw for every created or changed table and nothing else; untouched_identical - files never created or changed stay identical through any statements, commits and rollbacks. Tied to /repo by a differential correspondence: random histories executed statement by statement through the real Processor (SELECT result and bytes on disk compared after every statement, other-process commits injected when no lock is held), and the same programs as real csvq processes ended normally / by error / EXIT / signal",
+    "text": "Lean 4 theorems over a session machine (Model/Session.lean: disk, view cache with for-update marks, created/updated sets, temporary tables with restore points, commits by other processes): abort_restores - from the most recent commit point, after ANY statements of the transaction, an ending by error / EXIT / interrupt / ROLLBACK leaves every table file exactly as at that commit point, created files absent, temporary tables at their restore point; normal_end_publishes - COMMIT / normal end writes exactly the view the transaction last saw for every created or changed table and nothing else; untouched_identical - files never created or changed stay identical through any statements, commits and rollbacks. Tied to /repo by a differential correspondence: random histories executed statement by statement through the real Processor (SELECT result and bytes on disk compared after every statement, other-process commits injected when no lock is held), the statements include multi-table DELETE, two-table SELECT … FOR UPDATE, part-way failing UPDATE, ALTER TABLE … SET LINE_BREAK (the attribute is part of the compared table state), every table named in several spellings (relative, ./, absolute, absolute with // or /./, without extension); the lock files the transaction holds are part of the compared state; law untouched_file_rewritten (inode of each file vs csvq's own change log); and the same programs as real csvq processes ended normally / by error / EXIT / signal (at the first file access, at the k-th encode of the final COMMIT, during the last statement)",
     "design_ref": "DESIGN.md section 5, C01 and C20",
     "note": "trusted: Lean kernel; harness + driver; the model treats a DML statement as 'replace the cached table by f(old) or fail' (C05/C08 decide what f is and that failure changes nothing); the commit itself is C10's regenerated sequence; the ending->AutoCommit/AutoRollback dispatch of Processor.Execute and cli/app.go is covered by the process-level runs",
     "technique": "Lean 4 machine-checked proof (invariant relating the running state to the last commit point, induction over statement lists) + differential correspondence in-process and at process level",
